@@ -21,6 +21,7 @@ import (
 	"context"
 	"errors"
 	"fmt"
+	"os"
 	"sort"
 	"strings"
 	"time"
@@ -53,6 +54,9 @@ func b2i(b bool) int {
 }
 
 const placeholder = "_"
+
+// request deadline of the runs that are not meant to be cut
+const stdDeadline = 4 * time.Second
 
 // ---- crafted shapes -------------------------------------------------------------------------
 
@@ -386,7 +390,33 @@ func (w *world) ctxTuples() *openfgav1.ContextualTupleKeys {
 	return &openfgav1.ContextualTupleKeys{TupleKeys: fga.Keys(w.ctxT)}
 }
 
+// watchdog runs f and gives up after d: an engine that does not return is an outcome of its own
+// (the goroutine is leaked).
+func watchdog(d time.Duration, f func() string) string {
+	ch := make(chan string, 1)
+	go func() {
+		defer func() {
+			if p := recover(); p != nil {
+				ch <- "PANIC:" + strings.NewReplacer("\n", "_", "\t", "_", " ", "_").Replace(fmt.Sprint(p))
+			}
+		}()
+		ch <- f()
+	}()
+	t := time.NewTimer(d)
+	defer t.Stop()
+	select {
+	case r := <-ch:
+		return r
+	case <-t.C:
+		return "HANG"
+	}
+}
+
 func (w *world) list(e engine, limit uint32, deadline time.Duration) string {
+	return watchdog(deadline+4*time.Second, func() string { return w.list0(e, limit, deadline) })
+}
+
+func (w *world) list0(e engine, limit uint32, deadline time.Duration) string {
 	q, err := w.query(e, limit, deadline)
 	if err != nil {
 		return "E:other:build"
@@ -420,7 +450,11 @@ func (f *fakeStream) SendMsg(any) error            { return nil }
 func (f *fakeStream) RecvMsg(any) error            { return nil }
 
 func (w *world) streamed(e engine) string {
-	q, err := w.query(e, 1000, 20*time.Second)
+	return watchdog(stdDeadline+4*time.Second, func() string { return w.streamed0(e) })
+}
+
+func (w *world) streamed0(e engine) string {
+	q, err := w.query(e, 1000, stdDeadline)
 	if err != nil {
 		return "E:other:build"
 	}
@@ -579,6 +613,13 @@ func exec(line string, st *hx.Stats) string {
 		st.Inc("exec:deadline")
 		return strings.Join(out, " ")
 	}
+	if only := os.Getenv("C05_ONLY"); only != "" { // debugging aid: run a single engine/limit
+		for _, e := range engines {
+			if strings.HasPrefix(only, e.key) {
+				return only + "=" + w.list(e, 1000, stdDeadline)
+			}
+		}
+	}
 	out = append(out, "ed="+w.edges(m))
 	out = append(out, "re="+w.reverseExpand())
 	for _, e := range engines {
@@ -587,10 +628,10 @@ func exec(line string, st *hx.Stats) string {
 			if l == 1000 {
 				name = "i"
 			}
-			out = append(out, fmt.Sprintf("%s%s=%s", e.key, name, w.list(e, l, 20*time.Second)))
+			out = append(out, fmt.Sprintf("%s%s=%s", e.key, name, w.list(e, l, stdDeadline)))
 		}
 	}
-	out = append(out, "c0="+w.list(engines[0], 0, 20*time.Second))
+	out = append(out, "c0="+w.list(engines[0], 0, stdDeadline))
 	out = append(out, "sc="+w.streamed(engines[0]))
 	out = append(out, "sp="+w.streamed(engines[2]))
 	st.Inc("exec:std")
